@@ -163,6 +163,11 @@ def gen_tuples(t, sd):
         elif r < 0.85:
             kw[rng.choice(["minimum", "exclusiveMinimum"])] = F(rng.randint(-60, 60))
         add(**kw)
+    # ranges that hold no multiple (must be rejected at compile time), incl. the floating-point traps 0.3/0.1
+    for (ty, lo, hi, m, ka, kb) in [("number", F(3, 10), F(35, 100), F(1, 10), "exclusiveMinimum", "maximum"), ("integer", F(3, 10), F(12, 10), F(3, 10), "minimum", "maximum"),
+                                    ("number", F(11, 10), F(19, 10), F(1), "minimum", "maximum"), ("integer", F(4), F(6), F(3), "exclusiveMinimum", "exclusiveMaximum"),
+                                    ("number", F(7, 10), F(8, 10), F(1, 10), "exclusiveMinimum", "exclusiveMaximum"), ("number", F(1, 10), F(3, 10), F(2, 10), "exclusiveMinimum", "maximum")]:
+        add(type=ty, multipleOf=m, **{ka: lo, kb: hi})
     # intersections of two multipleOf through allOf (lcm)
     for _ in range(6 if t == "quick" else 40):
         m1, m2 = rng.choice(MS), rng.choice(MS)
@@ -389,6 +394,10 @@ def _work(args):
         return st, cands, sample, inc
     st["compiled"] += 1
     aut = Aut(auts[lex])
+    if aut.init == 0 or aut.init not in aut.coreachable(lex):
+        # the schema compiled although its number lexeme has an empty language: combinations with no satisfying value must be rejected
+        cands.append((t, None, None, "compiled-with-empty-language"))
+        return st, cands, sample, inc
     enc = Enc(aut, lex, li, lf, no_tz, bv=bool(mults(t)))
     s = z3.Solver()
     s.set("timeout", 120000)
@@ -494,6 +503,10 @@ def run():
     rres = e2.run_jobs(rjobs) if rjobs else []
     ri = 0
     for (t, text, eng_sym, kind) in candidates:
+        if text is None and kind == "compiled-with-empty-language":
+            viol.append(("unsatisfiable-not-rejected|%s|mult=%s" % (t["type"], bool(mults(t))),
+                         dict(property=prop, kind=kind, schema=make_schema(t), note="the schema compiles but its number lexeme accepts nothing: an unsatisfiable combination was not rejected at compile time")))
+            continue
         if text is None:
             key = "crash|" + ("integer" if t["type"] == "integer" else "number")
             payload = dict(property=prop, kind=kind, schema=make_schema(t), note="engine panicked or crashed while compiling this schema")
